@@ -342,9 +342,20 @@ fn home(f: usize) -> (bool, u8) {
 }
 
 pub fn check_c15(ctx: &mut Ctx, transport: bool, fmt: u8, fci: &[u8]) {
+    check_c15_padded(ctx, transport, fmt, fci, 0)
+}
+
+/// The same with RFC 3550 trailing padding behind the control information ("for every feedback packet accepted by
+/// the parser": a padded packet is one, and its control information is what lies between the fixed part and the
+/// padding - also when that is nothing at all).
+pub fn check_c15_padded(ctx: &mut Ctx, transport: bool, fmt: u8, fci: &[u8], padding: u8) {
     ctx.eval();
-    let pkt = enc::feedback_raw(if transport { 205 } else { 206 }, fmt & 0x1f, 0x0102_0304, 0x0506_0708, fci, 0);
-    let fci = &pkt[12..]; // zero-filled to a word boundary by the model
+    let padding = padding & 0xfc;
+    let pkt = enc::feedback_raw(if transport { 205 } else { 206 }, fmt & 0x1f, 0x0102_0304, 0x0506_0708, fci, padding);
+    if padding != 0 {
+        ctx.class(if pkt.len() == 12 + padding as usize { "c15:padded:empty-fci" } else { "c15:padded:with-fci" });
+    }
+    let fci = &pkt[12..pkt.len() - padding as usize]; // zero-filled to a word boundary by the model
     let data = exact(&pkt);
     let b: &[u8] = &data;
     let _case = crate::watchdog::case_bytes("c15", b);
@@ -604,6 +615,9 @@ pub fn run_c15(ctx: &mut Ctx, shard: usize, nshards: usize) {
             for fmt in 0..32u8 {
                 for body in [&[][..], &[0, 1, 0, 2][..], &[0, 96, 0xff, 0xee, 0, 0, 0, 1][..], &[0u8; 16][..]] {
                     check_c15(ctx, transport, fmt, body);
+                    for padding in [4u8, 8, 12, 16, 252] {
+                        check_c15_padded(ctx, transport, fmt, body, padding);
+                    }
                 }
             }
         }
@@ -664,6 +678,11 @@ pub fn run_c15(ctx: &mut Ctx, shard: usize, nshards: usize) {
             _ => (s.chance(1, 2), s.u8() & 0x1f),
         };
         check_c15(ctx, transport, fmt, &f);
+        if i % 3 == 0 {
+            // the same control information in front of trailing padding (every amount; small ones more often)
+            let padding = if s.chance(1, 2) { 4 * s.range(1, 4) as u8 } else { 4 * s.range(1, 63) as u8 };
+            check_c15_padded(ctx, transport, fmt, &f, padding);
+        }
         if i % 4 == 0 {
             let l = s.range(0, 41);
             let d = s.fill(l);
